@@ -23,7 +23,7 @@ Print Assumptions C02_total_process_balanced.
 (* total-site record: the two ends of the site utility cascade (max(h) - h on the cascade of the summed utilities) differ
    by the net utility duty -- for ANY utility duties and levels -- and are >= 0 *)
 Theorem C02_site_cascade_ends :
-  forall w hu cu g, 0 < w -> wfs hu -> wfs cu -> desc g -> g <> [] -> covers g (eps_all hu cu) -> gaps_ok w g ->
+  forall w hu cu g, 0 < w -> wfs hu -> wfs cu -> desc g -> g <> [] -> covers g (eps_all hu cu) -> gaps_ok w 0 g ->
   site_Qh w hu cu g - site_Qc w hu cu g == duty hu - duty cu /\ 0 <= site_Qh w hu cu g /\ 0 <= site_Qc w hu cu g.
 Proof. intros. split; [apply site_cascade_ends|apply site_targets_nonneg]; assumption. Qed.
 Print Assumptions C02_site_cascade_ends.
